@@ -227,6 +227,9 @@ def run_sbrg(shard, rec, B):
             gs = gen.rand_list(rng, L, N)
             ps = 2 * rng.integers(0, 2, L)
         cs = rng.normal(size=len(gs)).astype(complex)
+        if not commuting and t % 3 == 0:
+            # coefficients spread over many decades: second-order terms fall below the tolerance
+            cs = (cs * 10.0 ** -rng.integers(0, 8, len(cs))).astype(complex)
         if t % 6 == 0 and commuting and len(cs) > 1:
             # make an identity / early term the leading one
             cs[-1] = 3.0 * np.sign(cs[-1].real or 1.0)
